@@ -17,7 +17,7 @@ func init() { register("C02", genC02) }
 type c02Desc struct {
 	History   string `json:"history"`   // none | ok | error | timeout | crash
 	Placement string `json:"placement"` // idle | reserved | dispatched | responded | completed | validated-then-reset
-	IDClass   string `json:"id_class"`  // stale | unknown | empty-ish | malformed | long | current-again
+	IDClass   string `json:"id_class"`  // stale | unknown | malformed | long | current-again | encoded-current
 	Op        string `json:"op"`        // response | error
 	First     string `json:"first"`     // for current-again: what the accepted first submission was
 	Submitter string `json:"submitter"` // runtime | extension | second-connection
@@ -50,6 +50,16 @@ func genC02(tier string, seed int64) []Case {
 					}
 					add(c02Desc{History: h, Placement: p, IDClass: idc, Op: op, Submitter: sub, NExt: 1})
 				}
+			}
+		}
+	}
+	// a percent-encoded spelling of the in-flight id is NOT the in-flight id: refused, and without
+	// any effect on the genuine submission that follows
+	for hi, h := range []string{"none", "ok", "timeout", "crash"} {
+		for oi, op := range []string{"response", "error"} {
+			for _, p := range []string{"dispatched", "responded"} {
+				sub := []string{"runtime", "second-connection", "extension"}[(hi+oi)%3]
+				add(c02Desc{History: h, Placement: p, IDClass: "encoded-current", Op: op, Submitter: sub, NExt: 1})
 			}
 		}
 	}
@@ -278,8 +288,22 @@ func runC02(c *Ctx, d c02Desc) {
 	}
 	idB := ev.ReqID()
 	c.Check(!contains(staleIDs, idB), "fresh_id", "C02/id-reused", "request id reused", idB)
+	encoded := func() string {
+		// vary which character is escaped: a dash, the first hex digit, the last one
+		switch len(d.History) % 3 {
+		case 0:
+			return strings.Replace(idB, "-", "%2D", 1)
+		case 1:
+			return fmt.Sprintf("%%%02X", idB[0]) + idB[1:]
+		}
+		return idB[:len(idB)-1] + fmt.Sprintf("%%%02x", idB[len(idB)-1])
+	}
 	if d.Placement == "dispatched" {
-		refused(submit(submitter(), d.Op, makeID(), []byte("intruder")), "dispatched")
+		id := makeID()
+		if d.IDClass == "encoded-current" {
+			id = encoded()
+		}
+		refused(submit(submitter(), d.Op, id, []byte("intruder")), "dispatched")
 	}
 	firstBody := []byte("resp-B-first")
 	var first *vh.Resp
@@ -293,6 +317,9 @@ func runC02(c *Ctx, d c02Desc) {
 		id := makeID()
 		if d.IDClass == "current-again" {
 			id = idB
+		}
+		if d.IDClass == "encoded-current" {
+			id = encoded()
 		}
 		refused(submit(submitter(), d.Op, id, []byte("intruder-second")), "responded")
 	}
